@@ -224,7 +224,11 @@ void harness(void)
     ASSERT(post == (pre | 1u << i) && extra == 0, "C04: release adds exactly the node");
     ASSERT(PF(capacity_left)(L) == cap0 + NSZ, "C18: capacity_left() grows by exactly one node");
 #if CFG_LEAK
+#if OP == OP_DEALLOC
     ASSERT(PF(leaked)(L) == leak0 - (int64_t)size, "C15: deallocate_node subtracts the size");
+#else
+    ASSERT(PF(leaked)(L) == leak0, "C15: the composable interface does not take part in leak counting (neither try_allocate nor try_deallocate)");
+#endif
 #endif
     ASSERT(H8(wa) == wv && n_up_alloc == ups && n_up_dealloc == 0, "C01: other live nodes untouched, no upstream traffic");
 #elif OP == OP_DTOR
